@@ -68,7 +68,8 @@ package storage
 //@ ensures[miss] result1 != nil ==> result0 == nil && result1 == ErrKeyNotFound
 
 //@ func (*MemCachedStore).Get
-//@ requires s != nil && len(key) > 0 && s.ps != nil
+// (panic guards: a nil receiver, an empty key or a missing lower store make the call panic)
+//@ requires[nopanic] s != nil && len(key) > 0 && s.ps != nil
 //@ ensures[tombstone] has(cmOf(&s.MemoryStore, key), string(key)) && cmOf(&s.MemoryStore, key)[string(key)] == nil ==> result0 == nil && result1 == ErrKeyNotFound
 //@ ensures[top] has(cmOf(&s.MemoryStore, key), string(key)) && cmOf(&s.MemoryStore, key)[string(key)] != nil ==> result1 == nil && same(result0, cmOf(&s.MemoryStore, key)[string(key)])
 //@ ensures[below] !has(cmOf(&s.MemoryStore, key), string(key)) ==> (result1 == nil) == sHas(s.ps, key) && (result1 == nil ==> seq(result0) == sGet(s.ps, key)) && (result1 != nil ==> result0 == nil)
